@@ -724,6 +724,14 @@ def discharge(ctx, body, p, ev, kind):
             def counted(t):
                 """a number of elements of the same collection: iter().position(..) found, iter().take_while(..).count(), iter().filter(..).count()"""
                 t = strip_refs(t)
+                base_lo = None
+                if isinstance(t, tuple) and t and t[0] == "binop" and t[1] == "Add":
+                    # a + k with k counted in coll[a..]: an absolute position computed by hand
+                    for a_, b_ in ((t[2], t[3]), (t[3], t[2])):
+                        b0_ = strip_refs(b_)
+                        if isinstance(b0_, tuple) and b0_ and b0_[0] == "field" and isinstance(b0_[1], tuple) and b0_[1][0] == "downcast" and is_call(strip_refs(b0_[1][1]), "Iterator>::position", "::position"):
+                            t, base_lo = b0_, strip_refs(a_)
+                            break
                 if isinstance(t, tuple) and t and t[0] == "field" and t[2] == 0 and isinstance(t[1], tuple) and t[1][0] == "downcast" and t[1][2] == "Some" \
                         and is_call(strip_refs(t[1][1]), "Iterator>::position", "::position", "::rposition"):
                     src = strip_refs(call_args(strip_refs(t[1][1]))[0])
@@ -733,6 +741,10 @@ def discharge(ctx, body, p, ev, kind):
                     return False
                 while isinstance(src, tuple) and src and src[0] in ("loc", "refmut", "ref"):
                     src = strip_refs(src[2] if src[0] == "loc" and len(src) > 2 else src[1])
+                if base_lo is not None:
+                    tl = strip_refs(call_args(src)[0]) if is_call(src, "[T]>::iter", "IntoIterator>::into_iter") and call_args(src) else None
+                    crt = _lib.canon_range(call_args(tl)[0], call_args(tl)[1]) if tl is not None and is_index_call(tl) else None
+                    return crt is not None and crt[1] == LEN and strip_refs(crt[0]) == base_lo and _lib.coll(call_args(tl)[0]) == c0
                 return is_call(src, "[T]>::iter", "IntoIterator>::into_iter") and _lib.coll(call_args(src)[0]) == c0
             cr = _lib.canon_range(ev.args[0], ev.args[1])
             if cr is not None and ctx is not None:
